@@ -18,21 +18,18 @@ Definition d_switch : dcase := {| d_reg := REG; d_module := [[{| cr_code := (Num
 
 (* ---------- witnesses: each open finding's input fails exactly its own guard conjunct, and the property is false on it ---------- *)
 Definition guard_bits (d : dcase) : list bool :=
-  [guard_F05b d; guard_F05c d; guard_F05f d; guard_F05h d; guard_F05i d].
+  [guard_F05b d; guard_F05c d; guard_F05f d; guard_F05i d].
 
-Theorem refuted_F05b : guard_bits d_F05b = [false; true; true; true; true]
+Theorem refuted_F05b : guard_bits d_F05b = [false; true; true; true]
   /\ the_path d_F05b = PCast /\ the_want d_F05b = WJsonTyped (TLib [100;97;116;101;116;105;109;101]) /\ C05_holds d_F05b = false.
 Proof. repeat split; vm_compute; reflexivity. Qed.
-Theorem refuted_F05c : guard_bits d_F05c = [true; false; true; true; true]
+Theorem refuted_F05c : guard_bits d_F05c = [true; false; true; true]
   /\ the_path d_F05c = PCast /\ the_want d_F05c = WText /\ C05_holds d_F05c = false.
 Proof. repeat split; vm_compute; reflexivity. Qed.
-Theorem refuted_F05f : guard_bits d_F05f = [true; true; false; true; true]
+Theorem refuted_F05f : guard_bits d_F05f = [true; true; false; true]
   /\ the_path d_F05f = PStreamSse /\ the_want d_F05f = WStreamItems /\ C05_holds d_F05f = false.
 Proof. repeat split; vm_compute; reflexivity. Qed.
-Theorem refuted_F05h : guard_bits d_F05h = [true; true; true; false; true]
-  /\ module_syntax_ok (d_module d_F05h) = false /\ C05_holds d_F05h = false.
-Proof. repeat split; vm_compute; reflexivity. Qed.
-Theorem refuted_F05i : guard_bits d_F05i = [true; true; true; true; false]
+Theorem refuted_F05i : guard_bits d_F05i = [true; true; true; false]
   /\ the_annotation d_F05i = [73;116;101;109] /\ the_want d_F05i = WJsonTyped (TClass [67;97;116]) /\ C05_holds d_F05i = false.
 Proof. repeat split; vm_compute; reflexivity. Qed.
 
@@ -41,6 +38,14 @@ Example fixed_F05e : c05_guard d_F05e = true /\ the_imported d_F05e = true /\ C0
 Proof. repeat split; vm_compute; reflexivity. Qed.
 Example fixed_F05g : c05_guard d_F05g = true /\ (exists c, the_path d_F05g = PStructure c) /\ C05_holds d_F05g = true.
 Proof. repeat split; try (vm_compute; reflexivity). eexists. vm_compute. reflexivity. Qed.
+
+(* F05h fixed: a streaming operation with a further 2xx response no longer renders `return <value>`; the
+   no-content 202 of the old witness ends the iteration (PEndIter), which under the stated reading delivers None *)
+Definition d_F05h_202 : dcase :=
+  {| d_reg := d_reg d_F05h; d_module := d_module d_F05h; d_op := 0%nat; d_resp := 1%nat; d_entry := None |}.
+Example fixed_F05h : c05_guard d_F05h = true /\ C05_holds d_F05h = true
+  /\ the_path d_F05h_202 = PEndIter /\ c05_guard d_F05h_202 = true /\ C05_holds d_F05h_202 = true.
+Proof. repeat split; vm_compute; reflexivity. Qed.
 
 Example guard_nonvacuous :
   c05_guard d_ok = true /\ C05_holds d_ok = true /\ c05_guard d_ok2 = true /\ C05_holds d_ok2 = true
@@ -94,7 +99,7 @@ Proof. intros reg o r n ct H. unfold handle. rewrite H, N.eqb_refl. reflexivity.
 Lemma handle_secondary : forall reg o p n r m ct,
   cprocessed o = Some (p, n) -> m <> n ->
   find_status m (cothers o) = Some r -> lead2 m = true ->
-  handle reg o m ct = secondary_path reg r.
+  handle reg o m ct = secondary_path reg (resolve o) ct r.
 Proof.
   intros reg o p n r m ct Hp Hne Hf Hl. unfold handle. rewrite Hp.
   replace (n =? m) with false by (symmetry; apply N.eqb_neq; congruence).
@@ -157,14 +162,14 @@ Qed.
 
 (* T2: a secondary 2xx whose JSON entry is the one the handler looks at *)
 Theorem secondary_json : forall reg o p n r m e ct imported,
-  cprocessed o = Some (p, n) -> m <> n -> find_status m (cothers o) = Some r -> lead2 m = true ->
+  cprocessed o = Some (p, n) -> st_streaming (resolve o) = false -> m <> n -> find_status m (cothers o) = Some r -> lead2 m = true ->
   handler_schema (cr_content r) = Some e -> is_stream r = false -> json_like (c_media e) = true ->
   heuristic_ok reg (c_type e) = true ->
   (needs_structure (c_type e) = true -> deser_direct reg (c_type e) = true /\ imported = true) ->
   delivers imported (handle reg o m ct) (ideal false r (Some e)) = true.
 Proof.
-  intros reg o p n r m e ct imported Hp Hne Hf Hl Hh Hs Hj Hok Hd.
-  rewrite (handle_secondary _ _ _ _ _ _ _ Hp Hne Hf Hl). unfold secondary_path. rewrite Hh.
+  intros reg o p n r m e ct imported Hp Hns Hne Hf Hl Hh Hs Hj Hok Hd.
+  rewrite (handle_secondary _ _ _ _ _ _ _ Hp Hne Hf Hl). unfold secondary_path. rewrite Hns. rewrite Hh.
   unfold ideal. rewrite Hs. cbn [andb].
   unfold json_like in Hj. apply andb_true_iff in Hj. destruct Hj as [Hb Ht].
   apply negb_true_iff in Hb. apply negb_true_iff in Ht. rewrite Hb, Ht.
@@ -173,23 +178,23 @@ Qed.
 
 (* a secondary 2xx without content returns None *)
 Theorem secondary_nocontent : forall reg o p n r m ct imported,
-  cprocessed o = Some (p, n) -> m <> n -> find_status m (cothers o) = Some r -> lead2 m = true ->
+  cprocessed o = Some (p, n) -> st_streaming (resolve o) = false -> m <> n -> find_status m (cothers o) = Some r -> lead2 m = true ->
   cr_content r = [] ->
   delivers imported (handle reg o m ct) (ideal false r None) = true.
 Proof.
-  intros reg o p n r m ct imported Hp Hne Hf Hl Hc.
-  rewrite (handle_secondary _ _ _ _ _ _ _ Hp Hne Hf Hl). unfold secondary_path, handler_schema. rewrite Hc. reflexivity.
+  intros reg o p n r m ct imported Hp Hns Hne Hf Hl Hc.
+  rewrite (handle_secondary _ _ _ _ _ _ _ Hp Hne Hf Hl). unfold secondary_path, handler_schema. rewrite Hns. rewrite Hc. reflexivity.
 Qed.
 
 (* and ANY secondary 2xx with content is fed to response.json(), whatever its media type (finding F05c):
    text and bytes are never delivered there *)
 Theorem secondary_never_text_or_bytes : forall reg o p n r m ct imported,
-  cprocessed o = Some (p, n) -> m <> n -> find_status m (cothers o) = Some r -> lead2 m = true ->
+  cprocessed o = Some (p, n) -> st_streaming (resolve o) = false -> m <> n -> find_status m (cothers o) = Some r -> lead2 m = true ->
   cr_content r <> [] ->
   delivers imported (handle reg o m ct) WText = false /\ delivers imported (handle reg o m ct) WBytes = false.
 Proof.
-  intros reg o p n r m ct imported Hp Hne Hf Hl Hc.
-  rewrite (handle_secondary _ _ _ _ _ _ _ Hp Hne Hf Hl). unfold secondary_path, handler_schema.
+  intros reg o p n r m ct imported Hp Hns Hne Hf Hl Hc.
+  rewrite (handle_secondary _ _ _ _ _ _ _ Hp Hne Hf Hl). unfold secondary_path, handler_schema. rewrite Hns.
   destruct (find (fun e => str_eqb (c_media e) m_json) (cr_content r)) as [e|].
   - unfold json_path. destruct (should_use_cattrs reg (show (c_type e))); [destruct (deser_code _ _ _)|]; split; reflexivity.
   - destruct (cr_content r) as [|e rest]; [congruence|]. cbn [hd_error].
@@ -228,6 +233,24 @@ Proof.
 Qed.
 
 (* record streams (ndjson, json-seq, multipart) are never delivered: whatever the handler does (finding F05f) *)
+(* F05h fixed in general: a streaming method never contains a `return <value>` branch *)
+Theorem module_syntax_always : forall ops, module_syntax_ok ops = true.
+Proof.
+  intro ops. unfold module_syntax_ok. apply forallb_forall. intros o _.
+  unfold emits_yield, emits_value_return. destruct (st_streaming (resolve o)); cbn [negb andb];
+    [rewrite andb_false_r | ]; reflexivity.
+Qed.
+
+(* ... and a further 2xx response without a body ends the iteration *)
+Theorem secondary_nocontent_streaming : forall reg o p n r m ct imported,
+  cprocessed o = Some (p, n) -> st_streaming (resolve o) = true -> m <> n ->
+  find_status m (cothers o) = Some r -> lead2 m = true -> cr_content r = [] ->
+  handle reg o m ct = PEndIter /\ delivers imported (handle reg o m ct) (ideal false r None) = true.
+Proof.
+  intros reg o p n r m ct imported Hp Hs Hne Hf Hl Hc.
+  rewrite (handle_secondary _ _ _ _ _ _ _ Hp Hne Hf Hl). unfold secondary_path. rewrite Hs, Hc. split; reflexivity.
+Qed.
+
 Theorem stream_items_never : forall imported p, delivers imported p WStreamItems = false.
 Proof. intros imported p. destruct p; reflexivity. Qed.
 
